@@ -113,6 +113,18 @@ def designed_cases(seed, tier):
         out.append({"id": f"backchain-{cs}", "text": text, "ast": prog.to_json(), "param": "p", "param_kind": kind, "inits": K.frac_enc({}),
                     "goals": goals, "N": depth + 2, "tests": [[t.numerator, t.denominator] for t in tests],
                     "features": ["designed:backward-dependency-chain-depth-%d" % depth] + (["designed:dependent-times-independent"] if indep else [])})
+    # central-moment and cumulant sensitivity goals of order 4 (where the two differ) on small walks: always part of the workload
+    for j in range(2 if tier == "quick" else 12):
+        cs = K.harness_seed(seed, ID + "-c4k4", j)
+        r = random.Random(cs)
+        a_, b_ = r.choice([(1, 1), (2, 1), (1, 2)])
+        text = f"x = 0\ny = 0\nwhile true:\n    x = x + {a_} {{p}} x - {b_}\n    y = y + 1 {{1/2}} y\nend\n"
+        prog = parse_program(text)
+        tests = [Fraction(r.randint(2, 8), 11), Fraction(r.randint(1, 6), 7)]
+        out.append({"id": f"c4k4-{cs}", "text": text, "ast": prog.to_json(), "param": "p", "param_kind": "prob", "inits": K.frac_enc({}),
+                    "goals": [{"x": 1}], "N": 3, "tests": [[t.numerator, t.denominator] for t in tests],
+                    "moment_goals": {"var": "x", "specs": r.choice([[["c", 4], ["k", 4]], [["k", 4], ["c", 4]], [["c", 4], ["k", 3]]])},
+                    "features": ["designed:central-and-cumulant-order-4", "central-and-cumulant-sensitivity-goals"]})
     # the parameter inside a branch condition over a fresh continuous draw (u < p): Polar replaces the condition by an opaque
     # probability symbol, the dependence on the parameter must not be lost (known finding K_SENS_ABS when it is)
     for j in range(2 if tier == "quick" else 12):
